@@ -447,6 +447,19 @@ def witCopy : Tree where
 
 example : TreeWF witS := wf_imp witS (by decide +kernel)
 
+example : IsCopy witS witCopy (· + 10) where
+  inj := by intro a b h; simpa using h
+  root := rfl
+  size := rfl
+  kids := by intro x; match x with | 0 | 1 | 2 | 3 => rfl | (n + 4) => simp [witS, witCopy]
+  parent := by intro x; match x with | 0 | 1 | 2 | 3 => rfl | (n + 4) => simp [witS, witCopy]
+  cls := by intro x; simp [witS, witCopy]
+  ty := by intro x; simp [witS, witCopy]
+  ignored := by intro x; simp [witS, witCopy]
+  nel := by intro x; rfl
+  eqc := by intro x; simp [witS, witCopy]
+  txt := by intro x; simp [witS, witCopy]
+
 /-- **delta empty ⇒ equal** (tree model, `==` classes as shipped), with the identifier-children comparison of fix f25f43a
     (`cmpIdents`, extracted from the source as `comparesIgnoredLeaves`).  For well-formed trees, same-typed well-formed
     caller matchings and ANY similarity oracle: if the delta is empty then the two roots are `==`.
